@@ -75,6 +75,11 @@ CHECKS = {
     technique='TLA+/TLC: trace validation of capture results and accumulators of the real simulators against their own waveforms (WaveSimT.tla); kernel switching counts on the complete configuration domain (KernelT.tla)',
     text='For random circuits (incl. parity-heavy ones that overflow), multi-transition inputs, capacities 4/8, capture times on and between grid points and TMAX, random accumulation-control tables, CPU and mock-GPU capture: TLC checks s[3..7], s[10] against what the output waveform encodes, that an output with clear overflow indicator has exactly the waveform of the re-run with capacity 64, and that abuf equals the weighted count of rising/falling transitions of the produced waveforms per accumulator and lane. Kernel: returned counts = transitions of the produced waveform for the complete domain of the bounded model and random configurations.',
     note='sd = 0. Capacity 64 stands for unlimited (checked: no marker in that run). Trusted: TLC, JSON reader, harness projection and time encoding.'),
+ 'C11': dict(
+    cat='model_checking', ref='DESIGN.md §4 C11, §3 (TransformT, Netlist.EvalH; harness/hdl.py)',
+    technique='TLA+/TLC: the circuit produced by the real Verilog/bench parsers (+ resolve) is validated against the ground-truth netlist of the abstract module with the hierarchical netlist semantics (TransformT.tla), all assignments enumerated as TLC states',
+    text='Seeded abstract modules over cells of all five libraries (bus ports with ascending/descending/one-bit ranges, named pins incl. unconnected and constant-tied ones, multi-output cells with arbitrary outputs open, assigns with bit selects, concatenations and sized constants in b/d/h, escaped identifiers) are rendered in several equivalent textual styles (split/merged declarations, statement and pin order, whitespace, comments, attributes), parsed with the real parser for both branchforks settings and resolved. TLC requires: port names in declaration order with bus bits in declared range order, state elements in instantiation order, the same Boolean function as the ground-truth netlist over all assignments, no unresolved cell, branch forks only add forks, and the bench rendering of the same netlist is equivalent.',
+    note='The text renderers and the ground-truth builder (harness/hdl.py) are trusted; lexical corner cases are sampled by style variables, not enumerated. Supported subset: flat modules, named pin connections, single-driver signals, no assign chains. <= 7 sources per module.'),
  'C07': dict(
     cat='model_checking', ref='DESIGN.md §4 C07, §3 (Schedule, ThreadOrder, SchedReplay)',
     technique='TLA+/TLC: model run of Schedule.tla on the published schedule (all Begin/End interleavings for narrow levels, level-wise static form for all); TLC-simulated thread orders (ThreadOrder.tla) replayed into the real simulators, judged by SchedReplay.tla',
